@@ -89,6 +89,112 @@ def h02a_plain_write(t0: int, t1: int, t2: int, blob: bytes) -> bool:
     return True
 
 
+class _MemoModel:
+    """functools.lru_cache as far as two writes can observe it: the same argument returns the very
+    object that was returned before (maxsize 1024 is never reached here)."""
+
+    def __init__(self, fn):
+        self.fn = fn
+        self.memo = []
+
+    def __call__(self, arg):
+        for k, v in self.memo:
+            if k == arg:
+                return v
+        v = self.fn(arg)
+        self.memo.append((arg, v))
+        return v
+
+
+def h02f_two_writes(t0: int, t1: int, blob: bytes) -> bool:
+    """
+    pre: 0 <= t0 < 2**TBITS and 0 <= t1 < 2**TBITS
+    pre: len(blob) == 4
+    post: _
+    """
+    # the same (length, type) varints are encoded again by a later call: results handed out earlier
+    # must not be affected (the encoder is memoised and shared)
+    track.entered()
+    classes = shard_ints("CLS", "4,4")
+    h, tr = _plain_helper()
+    p0 = (t0, _payload(classes[0], blob, 0))
+    p1 = (t1, _payload(classes[1], blob, 2))
+    # CrossHair bypasses functools.lru_cache (it calls the wrapped function every time), which would
+    # hide the sharing of cached results between calls: model the memoisation explicitly
+    real_cached = PT.varuint_to_bytes
+    PT.varuint_to_bytes = _MemoModel(PT._varuint_to_bytes)
+    try:
+        h.write_packets([p0], False)
+        first = bytes(tr.writes[0]) if tr.writes else b""
+        kept = tr.writes[0] if tr.writes else None
+        h.write_packets([p1, p0], False)
+    finally:
+        PT.varuint_to_bytes = real_cached
+    if track.reached():
+        return False
+    if len(tr.writes) != 2:
+        return track.fail("two write_packets calls did not produce exactly two transport writes")
+    if kept is not None and bytes(kept) != first:
+        return track.fail("bytes handed to the transport by the first write changed after the second write")
+    d0 = R.dec_plain_stream_strict(tr.writes[0])
+    d1 = R.dec_plain_stream_strict(tr.writes[1])
+    if d0 is None or d1 is None:
+        return track.fail("a write is not a sequence of well-formed plaintext frames")
+    if len(d0) != 1 or d0[0][0] != p0[0] or d0[0][1] != p0[1]:
+        return track.fail("first write does not decode to its packet")
+    if len(d1) != 2 or d1[0][0] != p1[0] or d1[0][1] != p1[1] or d1[1][0] != p0[0] or d1[1][1] != p0[1]:
+        return track.fail("second write does not decode to its packets")
+    return True
+
+
+def h02e_send_messages(idx: int, n: int) -> bool:
+    """
+    pre: 0 <= idx < NCLS
+    pre: 1 <= n <= 3
+    post: _
+    """
+    import aioesphomeapi.connection as CN
+    from vf.harness.common import connected_conn
+
+    track.entered()
+    conn, helper, _stops = connected_conn()
+    i = concretize(idx, NCLS - 1)
+    k = concretize(n, 3)
+    cls = _CLASSES[i]
+    msgs = []
+    for j in range(k):
+        other = _CLASSES[(i + 7 * j) % NCLS]
+        msgs.append(other())
+    msgs[0] = cls()
+    conn.send_messages(tuple(msgs))
+    if track.reached():
+        return False
+    if len(helper.writes) != 1:
+        return track.fail("send_messages did not hand the batch to the frame helper in one write_packets call")
+    pk = helper.writes[0]
+    if len(pk) != k:
+        return track.fail("number of packets differs from the number of messages")
+    for (tid, payload), m in zip(pk, msgs):
+        want = _PROTO_IDS[type(m).__name__]
+        if tid != want:
+            return track.fail(f"{type(m).__name__} sent with id {tid}, api.proto declares {want}")
+        if payload != m.SerializeToString():
+            return track.fail("payload differs from the message's serialisation")
+    return True
+
+
+def _proto_ids() -> dict:
+    from vf.harness.c13 import proto_text_map
+
+    return {n: i for n, (i, _s) in proto_text_map().items() if i}
+
+
+from vf.harness.common import concretize  # noqa: E402
+import aioesphomeapi.core as _CORE  # noqa: E402
+
+_PROTO_IDS = _proto_ids()
+_CLASSES = list(_CORE.MESSAGE_TYPE_TO_PROTO.values())
+NCLS = len(_CLASSES)
 TBITS = shard_int("TBITS", 35)
 VBITS = shard_int("VBITS", 64)
 
@@ -109,6 +215,18 @@ def shards(tier: str) -> list:
     for m in multi:
         out.append({"fn": "h02a_plain_write", "env": {"CLS": ",".join(map(str, m)), "TBITS": tb}, "cond_timeout": 240,
                     "desc": f"plaintext write_packets, payload classes {m}, types < 2^{tb}"})
+    # two write calls on one helper (the varuint cache is shared between calls and helpers)
+    for m in ([(4, 4), (3, 5)] if tier == "quick" else [(a, b) for a in (3, 4, 5, 6) for b in (3, 4, 5, 6)]):
+        out.append({"fn": "h02f_two_writes", "env": {"CLS": ",".join(map(str, m)), "TBITS": 21}, "cond_timeout": 240,
+                    "desc": f"two consecutive write_packets calls, payload classes {m}: each write decodes on its own"})
+    out.append({"fn": "h02e_send_messages", "env": {}, "cond_timeout": 300, "desc": "APIConnection.send_messages: id and payload handed to the frame helper for every registered class, batches of 1-3, one write_packets call"})
+    # noise transport (module c02n): nonce continuity and framing with the ideal AEAD, real cipher end to end
+    from vf.harness import c02n
+
+    for sh in c02n.shards(tier):
+        sh = dict(sh)
+        sh["module"] = "vf.harness.c02n"
+        out.append(sh)
     return out
 
 
@@ -116,9 +234,11 @@ BOUNDS = {
     "quick": {"varuint": "v in [0, 2^64)", "plaintext batch": "1 packet: type < 2^64; 2-3 packets: types < 2^35; payload length classes 0,1,2 (symbolic bytes) and 127,128,16383,16384,16385 (two symbolic bytes + filler)"},
     "thorough": {"varuint": "v in [0, 2^64)", "plaintext batch": "as quick plus lengths 65535/65536 and all pairs of classes, 60 triples"},
 }
-OUTSIDE = ["batches of more than 3 packets", "payload lengths other than the listed classes", "protobuf byte encoding of message bodies (opaque payload)"]
+OUTSIDE = ["batches of more than 3 packets", "payload lengths other than the listed classes", "protobuf byte encoding of message bodies (opaque payload)",
+           "noise payloads of 65520 bytes or more (the 16-bit length fields cannot represent them)", "keys other than the two concrete test keys"]
 ASSUMPTIONS = [
     "reference decoder vf/refcodec.py is the documented wire format (api.proto base-packets comment)",
     "CrossHair models of int/bytes/list and the plugin's linear encodings of & | ^ are exact",
+    "noise: ideal-AEAD recorder for symbolic content (encrypt records nonce and plaintext), real cipher end-to-end against the independent responder vf/noise_ref.py",
 ]
 EXPLANATION = "C02: oracle = exactly one transport.write whose bytes the strict independent decoder parses back to the packets given."
